@@ -81,9 +81,8 @@ extern int mpt_data_convert_int8(const int8_t *from, MPT_TYPE(type) type, void *
 				struct iovec *vec = dest;
 				vec->iov_base = (void *) from;
 				vec->iov_len  = sizeof(*from);
-				return sizeof(*vec);
 			}
-			return MPT_ERROR(MissingData);
+			return sizeof(struct iovec);
 		default:
 			/* invalid conversion */
 			return MPT_ERROR(BadType);
@@ -155,9 +154,8 @@ extern int mpt_data_convert_uint8(const uint8_t *from, MPT_TYPE(type) type, void
 				struct iovec *vec = dest;
 				vec->iov_base = (void *) from;
 				vec->iov_len  = sizeof(*from);
-				return sizeof(*vec);
 			}
-			return MPT_ERROR(MissingData);
+			return sizeof(struct iovec);
 		default:
 			/* invalid conversion */
 			return MPT_ERROR(BadType);
@@ -233,9 +231,8 @@ extern int mpt_data_convert_int16(const int16_t *from, MPT_TYPE(type) type, void
 				struct iovec *vec = dest;
 				vec->iov_base = (void *) from;
 				vec->iov_len  = sizeof(*from);
-				return sizeof(*vec);
 			}
-			return MPT_ERROR(MissingData);
+			return sizeof(struct iovec);
 		default:
 			/* invalid conversion */
 			return MPT_ERROR(BadType);
@@ -310,9 +307,8 @@ extern int mpt_data_convert_uint16(const uint16_t *from, MPT_TYPE(type) type, vo
 				struct iovec *vec = dest;
 				vec->iov_base = (void *) from;
 				vec->iov_len  = sizeof(*from);
-				return sizeof(*vec);
 			}
-			return MPT_ERROR(MissingData);
+			return sizeof(struct iovec);
 		default:
 			/* invalid conversion */
 			return MPT_ERROR(BadType);
@@ -393,9 +389,8 @@ extern int mpt_data_convert_int32(const int32_t *from, MPT_TYPE(type) type, void
 				struct iovec *vec = dest;
 				vec->iov_base = (void *) from;
 				vec->iov_len  = sizeof(*from);
-				return sizeof(*vec);
 			}
-			return MPT_ERROR(MissingData);
+			return sizeof(struct iovec);
 		default:
 			/* invalid conversion */
 			return MPT_ERROR(BadType);
@@ -474,9 +469,8 @@ extern int mpt_data_convert_uint32(const uint32_t *from, MPT_TYPE(type) type, vo
 				struct iovec *vec = dest;
 				vec->iov_base = (void *) from;
 				vec->iov_len  = sizeof(*from);
-				return sizeof(*vec);
 			}
-			return MPT_ERROR(MissingData);
+			return sizeof(struct iovec);
 		default:
 			/* invalid conversion */
 			return MPT_ERROR(BadType);
@@ -559,9 +553,8 @@ extern int mpt_data_convert_int64(const int64_t *from, MPT_TYPE(type) type, void
 				struct iovec *vec = dest;
 				vec->iov_base = (void *) from;
 				vec->iov_len  = sizeof(*from);
-				return sizeof(*vec);
 			}
-			return MPT_ERROR(MissingData);
+			return sizeof(struct iovec);
 		default:
 			/* invalid conversion */
 			return MPT_ERROR(BadType);
@@ -644,9 +637,8 @@ extern int mpt_data_convert_uint64(const uint64_t *from, MPT_TYPE(type) type, vo
 				struct iovec *vec = dest;
 				vec->iov_base = (void *) from;
 				vec->iov_len  = sizeof(*from);
-				return sizeof(*vec);
 			}
-			return MPT_ERROR(MissingData);
+			return sizeof(struct iovec);
 		default:
 			/* invalid conversion */
 			return MPT_ERROR(BadType);
